@@ -338,3 +338,23 @@ func TestD15CloneSiblingsKeepTheirOwnFacts(t *testing.T) {
 	}
 	t.Fatalf("world A lost the fact it was given; it holds %v", *a.Facts())
 }
+
+// D16 (C14): GRAMMAR.md documents an integer as any base-10 int64; negative literals must parse.
+func TestD16NegativeIntegerLiterals(t *testing.T) {
+	f, err := parser.FromStringFact(`f(-3, [-4, 5])`)
+	if err != nil {
+		t.Fatalf("f(-3, [-4, 5]) rejected: %v", err)
+	}
+	if got := f.Predicate.IDs[0]; got != biscuit.Integer(-3) {
+		t.Fatalf("first term is %v, want -3", got)
+	}
+	c, err := parser.FromStringCheck(`check if p($x), $x - 3 < -1, $x - -3 == 4`)
+	if err != nil {
+		t.Fatalf("check with negative literals rejected: %v", err)
+	}
+	// binary minus keeps its meaning: [$x 3 - -1 <] and [$x -3 - 4 ==]
+	e := c.Queries[0].Expressions
+	if len(e) != 2 || len(e[0]) != 5 || len(e[1]) != 5 {
+		t.Fatalf("unexpected expression shape: %v", e)
+	}
+}
